@@ -124,7 +124,9 @@ class CtlWorld:
 
     def release(self):
         self.dead = True
-        release_loop(self.loop)
+        from aiomc.vloop import teardown_loop
+
+        teardown_loop(self.loop)
 
     def check_writes(self, where):
         taken = [s.take() for s in self.sessions]
